@@ -59,7 +59,9 @@ type World struct {
 
 func (w *World) logf(f string, a ...any) { w.Log = append(w.Log, fmt.Sprintf(f, a...)) }
 
-var relNames = []string{"a", "b", "proj", "team/a", "team/b", "team/proj", "deep/x/y", "x.git", "é", "sp ace", "a.b", "Team/a"}
+// relative paths of repositories below a root; some are, or lie below, dot-directories (~/.dotfiles, ~/.config/nvim)
+var relNames = []string{"a", "b", "proj", "team/a", "team/b", "team/proj", "deep/x/y", "x.git", "é", "sp ace", "a.b", "Team/a",
+	".dotfiles", ".config/nvim", ".mirrors/lib", "team/.hidden"}
 
 func NewWorld(base string, tmpls []*Template, r *gen.Rand) *World {
 	w := &World{Base: base, Index: filepath.Join(base, "idx"), Insts: map[string]*Inst{}, Tmpls: tmpls}
@@ -323,6 +325,22 @@ func (w *World) MutateRoots(r *gen.Rand) {
 	}
 }
 
+// TouchMetadata changes nothing but mutable repository metadata (the zoekt.web-url git config entry) of one or two
+// repositories: no new commit, no move. An index that was up to date becomes "meta-mismatch" (IndexStateMeta).
+func (w *World) TouchMetadata(r *gen.Rand) {
+	insts := w.instList()
+	if len(insts) == 0 {
+		return
+	}
+	for i, n := 0, r.Range(1, 2); i < n; i++ {
+		in := gen.Pick(r, insts)
+		w.seq++
+		in.WebURL = fmt.Sprintf("http://web.example/%d", w.seq)
+		w.writeWebURL(in)
+		w.logf("metadata only: weburl %s %s", in.Path, in.WebURL)
+	}
+}
+
 // foreignShard writes a shard with the real builder, directly: any name, source, branch version and file prefix.
 func (w *World) foreignShard(name, source, ver, prefix string, disableCTags bool) {
 	must(os.MkdirAll(w.Index, 0o755))
@@ -519,7 +537,7 @@ func (w *World) PickRoots(r *gen.Rand) (abs []string, args []string) {
 	}
 	if r.Chance(1, 6) {
 		rt := gen.Pick(r, w.Roots)
-		sub := filepath.Join(rt, gen.Pick(r, []string{"team", "deep", "deep/x"}))
+		sub := filepath.Join(rt, gen.Pick(r, []string{"team", "deep", "deep/x", ".config", ".mirrors"}))
 		if isDir(sub) {
 			if r.Bool() {
 				abs = append(abs, sub)
